@@ -166,6 +166,16 @@ register(
     "DESIGN.md §3 C12",
 )
 
+register(
+    "C13",
+    "bounded-exhaustive enumeration of id lists (every subset of {1..7}, all run structures, lengths 1..40 for the wrap arithmetic), table lengths 1..17 x field widths, DMIG index sets x forms x types x every sparsity pattern <=3x3 x value classes, GRID option combinations and CORD2 chains, each written and read back",
+    "Every list/table/matrix/card of the bounded space is written by the bulk-data writer and recovered by the "
+    "corresponding reader: same ids in the same order, same DOF labels, values to the precision of the written format "
+    "(DMIG compared on the returned index, everything not returned must be zero).",
+    "Trusted: io.StringIO round trips; id alphabets chosen to hit every line-fill modulus and THRU run structure.",
+    "DESIGN.md §3 C13",
+)
+
 
 def build():
     checks = []
